@@ -705,3 +705,148 @@ func rUnusedTypeString(c *Ctx, plugins ...string) {
 		}
 	}
 }
+
+// rangeOfIndexLoop presents `for i := K; i < len(X); i++ { … X[i] … }` as the range loop it abbreviates,
+// `for i, elem := range X[K:] { … elem … }`, so that the loop rules, which are stated over range loops, apply to both spellings.
+// Returned only when that is exact: i is not assigned in the body and (for K > 0) is used only to index X. The new loop shares
+// the positions of the old one; the body is rebuilt with X[i] replaced, the original tree is left alone.
+func rangeOfIndexLoop(fs *ast.ForStmt) *ast.RangeStmt {
+	if fs.Init == nil || fs.Cond == nil || fs.Post == nil {
+		return nil
+	}
+	init, ok1 := fs.Init.(*ast.AssignStmt)
+	cond, ok2 := unparen(fs.Cond).(*ast.BinaryExpr)
+	post, ok3 := fs.Post.(*ast.IncDecStmt)
+	if !ok1 || !ok2 || !ok3 || init.Tok != token.DEFINE || len(init.Lhs) != 1 || len(init.Rhs) != 1 || cond.Op != token.LSS || post.Tok != token.INC {
+		return nil
+	}
+	iv, isI := init.Lhs[0].(*ast.Ident)
+	kl, isK := init.Rhs[0].(*ast.BasicLit)
+	lc, isL := unparen(cond.Y).(*ast.CallExpr)
+	if !isI || !isK || kl.Kind != token.INT || !isL || canon(lc.Fun) != "len" || len(lc.Args) != 1 || canon(cond.X) != iv.Name || canon(post.X) != iv.Name {
+		return nil
+	}
+	x := lc.Args[0]
+	xs := canon(x)
+	elemName := "elem_" + iv.Name
+	bad := false
+	otherUses := 0
+	var rewrite func(n ast.Node) ast.Node
+	rewriteExpr := func(e ast.Expr) ast.Expr {
+		if e == nil {
+			return nil
+		}
+		return rewrite(e).(ast.Expr)
+	}
+	rewrite = func(n ast.Node) ast.Node {
+		switch y := n.(type) {
+		case *ast.IndexExpr:
+			if canon(y.X) == xs && canon(y.Index) == iv.Name {
+				return &ast.Ident{NamePos: y.Pos(), Name: elemName}
+			}
+		case *ast.Ident:
+			if y.Name == iv.Name {
+				otherUses++
+			}
+		case *ast.AssignStmt:
+			for _, l := range y.Lhs {
+				if canon(l) == iv.Name || canon(l) == xs || (func() bool { ix, ok := l.(*ast.IndexExpr); return ok && canon(ix.X) == xs })() {
+					bad = true
+				}
+			}
+		case *ast.IncDecStmt:
+			if canon(y.X) == iv.Name {
+				bad = true
+			}
+		}
+		return n
+	}
+	// a shallow structural copy with replaced index expressions (astutil.Apply without the dependency)
+	var copyStmt func(s ast.Stmt) ast.Stmt
+	var copyExpr func(e ast.Expr) ast.Expr
+	copyExprs := func(es []ast.Expr) []ast.Expr {
+		out := make([]ast.Expr, len(es))
+		for i, e := range es {
+			out[i] = copyExpr(e)
+		}
+		return out
+	}
+	copyExpr = func(e ast.Expr) ast.Expr {
+		if e == nil {
+			return nil
+		}
+		e = rewriteExpr(e)
+		switch y := e.(type) {
+		case *ast.ParenExpr:
+			return &ast.ParenExpr{Lparen: y.Lparen, X: copyExpr(y.X), Rparen: y.Rparen}
+		case *ast.BinaryExpr:
+			return &ast.BinaryExpr{X: copyExpr(y.X), OpPos: y.OpPos, Op: y.Op, Y: copyExpr(y.Y)}
+		case *ast.UnaryExpr:
+			return &ast.UnaryExpr{OpPos: y.OpPos, Op: y.Op, X: copyExpr(y.X)}
+		case *ast.StarExpr:
+			return &ast.StarExpr{Star: y.Star, X: copyExpr(y.X)}
+		case *ast.CallExpr:
+			return &ast.CallExpr{Fun: copyExpr(y.Fun), Lparen: y.Lparen, Args: copyExprs(y.Args), Ellipsis: y.Ellipsis, Rparen: y.Rparen}
+		case *ast.SelectorExpr:
+			return &ast.SelectorExpr{X: copyExpr(y.X), Sel: y.Sel}
+		case *ast.IndexExpr:
+			return &ast.IndexExpr{X: copyExpr(y.X), Lbrack: y.Lbrack, Index: copyExpr(y.Index), Rbrack: y.Rbrack}
+		case *ast.SliceExpr:
+			return &ast.SliceExpr{X: copyExpr(y.X), Lbrack: y.Lbrack, Low: copyExpr(y.Low), High: copyExpr(y.High), Max: copyExpr(y.Max), Slice3: y.Slice3, Rbrack: y.Rbrack}
+		case *ast.Ident, *ast.BasicLit:
+			return e
+		}
+		bad = true // a form the copy does not know (function literal, composite literal, …)
+		return e
+	}
+	copyBlock := func(b *ast.BlockStmt) *ast.BlockStmt {
+		if b == nil {
+			return nil
+		}
+		nb := &ast.BlockStmt{Lbrace: b.Lbrace, Rbrace: b.Rbrace}
+		for _, s := range b.List {
+			nb.List = append(nb.List, copyStmt(s))
+		}
+		return nb
+	}
+	copyStmt = func(s ast.Stmt) ast.Stmt {
+		if s == nil {
+			return nil
+		}
+		rewrite(s)
+		switch y := s.(type) {
+		case *ast.ExprStmt:
+			return &ast.ExprStmt{X: copyExpr(y.X)}
+		case *ast.AssignStmt:
+			return &ast.AssignStmt{Lhs: copyExprs(y.Lhs), TokPos: y.TokPos, Tok: y.Tok, Rhs: copyExprs(y.Rhs)}
+		case *ast.IncDecStmt:
+			return &ast.IncDecStmt{X: copyExpr(y.X), TokPos: y.TokPos, Tok: y.Tok}
+		case *ast.ReturnStmt:
+			return &ast.ReturnStmt{Return: y.Return, Results: copyExprs(y.Results)}
+		case *ast.BranchStmt:
+			return y
+		case *ast.BlockStmt:
+			return copyBlock(y)
+		case *ast.IfStmt:
+			var els ast.Stmt
+			if y.Else != nil {
+				els = copyStmt(y.Else)
+			}
+			return &ast.IfStmt{If: y.If, Init: copyStmt(y.Init), Cond: copyExpr(y.Cond), Body: copyBlock(y.Body), Else: els}
+		}
+		bad = true
+		return s
+	}
+	body := copyBlock(fs.Body)
+	if bad {
+		return nil
+	}
+	var rx ast.Expr = x
+	if kl.Value != "0" {
+		if otherUses > 0 {
+			return nil
+		}
+		rx = &ast.SliceExpr{X: x, Lbrack: x.End(), Low: kl, Rbrack: x.End()}
+	}
+	return &ast.RangeStmt{For: fs.For, Key: &ast.Ident{NamePos: iv.Pos(), Name: iv.Name}, Value: &ast.Ident{NamePos: iv.Pos(), Name: elemName}, TokPos: init.TokPos, Tok: token.DEFINE, X: rx, Body: body}
+}
